@@ -198,18 +198,22 @@ async fn resolve_with_nameserver_response<'a>(
         } => {
             context.cache.insert_all(&rrs);
             if question.qtype == QueryType::Record(RecordType::A) {
-                if let Some(rr) = get_record(&rrs, &question.name, RecordType::A) {
+                if get_record(&rrs, &question.name, RecordType::A).is_some() {
                     tracing::trace!("got recursive delegation - using glue A record");
-                    prioritising_merge(&mut combined_rrs, vec![rr.clone()]);
+                    // all of them: a nameserver may have several addresses
+                    let glue = get_records(&rrs, &question.name, RecordType::A);
+                    prioritising_merge(&mut combined_rrs, glue);
                     return Ok(Ok(ResolvedRecord::NonAuthoritative {
                         rrs: combined_rrs,
                         soa_rr: None,
                     }));
                 }
             } else if question.qtype == QueryType::Record(RecordType::AAAA) {
-                if let Some(rr) = get_record(&rrs, &question.name, RecordType::AAAA) {
+                if get_record(&rrs, &question.name, RecordType::AAAA).is_some() {
                     tracing::trace!("got recursive delegation - using glue AAAA record");
-                    prioritising_merge(&mut combined_rrs, vec![rr.clone()]);
+                    // all of them: a nameserver may have several addresses
+                    let glue = get_records(&rrs, &question.name, RecordType::AAAA);
+                    prioritising_merge(&mut combined_rrs, glue);
                     return Ok(Ok(ResolvedRecord::NonAuthoritative {
                         rrs: combined_rrs,
                         soa_rr: None,
@@ -605,6 +609,18 @@ fn get_record<'a>(
 ) -> Option<&'a ResourceRecord> {
     rrs.iter()
         .find(|&rr| rr.rtype_with_data.rtype() == rtype && rr.name == *target)
+}
+
+/// Like `get_record`, but returns every matching record.
+fn get_records(
+    rrs: &[ResourceRecord],
+    target: &DomainName,
+    rtype: RecordType,
+) -> Vec<ResourceRecord> {
+    rrs.iter()
+        .filter(|&rr| rr.rtype_with_data.rtype() == rtype && rr.name == *target)
+        .cloned()
+        .collect()
 }
 
 /// A response from a remote nameserver
